@@ -344,7 +344,7 @@ def _event_dims_stay(prog: Program, col: Collector, refs: Refs):
                         r_ = x.right
                         while isinstance(r_, ast.Call) and isinstance(r_.func, ast.Name) and r_.func.id in ("tuple", "list") and r_.args:
                             r_ = r_.args[0]
-                        if isinstance(r_, ast.Call) and isinstance(r_.func, ast.Name) and r_.func.id == "range" and len(r_.args) == 2:
+                        if isinstance(r_, ast.Call) and isinstance(r_.func, ast.Name) and r_.func.id == "range" and len(r_.args) in (1, 2):
                             tail, head = r_, x.left
                     if isinstance(x, ast.Name) and x.id in defs and x.id not in seen:
                         seen.add(x.id)
@@ -363,8 +363,11 @@ def _event_dims_stay(prog: Program, col: Collector, refs: Refs):
                         for y in ast.walk(tail):
                             if isinstance(y, ast.Call) and isinstance(y.func, ast.Name) and y.func.id == "len" and y.args:
                                 t_ = norm(y.args[0])
-                                env[norm(y)] = ne if t_.endswith("output.shape") else nb + ne if t_.endswith("data.shape") or t_ == "data.shape" else nb
-                        lo, hi = _eval_int(tail.args[0], env), _eval_int(tail.args[1], env)
+                                a0_ = y.args[0]
+                                whole = t_.endswith(".data.shape") or (isinstance(a0_, ast.Attribute) and a0_.attr == "shape" and _owner_of_data(a0_.value, defs) is not None)
+                                env[norm(y)] = ne if t_.endswith("output.shape") else nb + ne if whole else nb
+                        lo = _eval_int(tail.args[0], env) if len(tail.args) == 2 else 0
+                        hi = _eval_int(tail.args[-1], env)
                         if list(range(lo, hi)) != list(range(nb, nb + ne)) and bad is None:
                             bad = (nb, ne, list(range(lo, hi)))
             except _NoEval as ex:
